@@ -444,6 +444,8 @@ def sgx_run(acc, cseed, alter, tmpdir):
                            "page": gd.page_size}, case)
             return
         acc.count("genuine_verified")
+        if getattr(gd, "zero_edge_digest", False):
+            acc.count("genuine_sgx_flows_whose_message_digest_has_a_zero_edge")
         q = gd.material.quote
         want = {"Hash": gd.keys_hash().hex(), "UD value": ud.hex32, "Best block": gd.best_block.hex(),
                 "Last transaction signed": gd.last_tx.hex(), "Platform": "sgx",
